@@ -1,4 +1,951 @@
-From Coq Require Import List ZArith QArith Bool Arith Lia.
+(* Lemmas for C49 about the exact quad-tree model Num/QInfoModel.v. *)
+From Coq Require Import List ZArith QArith Qabs Bool Arith Lia Setoid Morphisms Lqa.
 From PLV Require Import Num.QInfoModel.
 Import ListNotations.
-Lemma stub_true : True. Proof. exact I. Qed.
+
+(* ================================================================== Gaussian rationals *)
+Ltac cnorm := unfold ceq, cadd, cmul, cconj, cnorm2, cre, cofq, c0, c1 in *; simpl fst in *; simpl snd in *.
+Ltac cring := cnorm; try split; ring.
+
+Lemma ceq_refl x : ceq x x.
+Proof. split; reflexivity. Qed.
+Lemma ceq_sym x y : ceq x y -> ceq y x.
+Proof. intros [A B]; split; symmetry; assumption. Qed.
+Lemma ceq_trans x y z : ceq x y -> ceq y z -> ceq x z.
+Proof. intros [A B] [A' B']; split; etransitivity; eassumption. Qed.
+Add Parametric Relation : C ceq
+  reflexivity proved by ceq_refl symmetry proved by ceq_sym transitivity proved by ceq_trans as ceq_rel.
+
+Global Instance cadd_proper : Proper (ceq ==> ceq ==> ceq) cadd.
+Proof. intros x x' [A B] y y' [A' B']; split; simpl; rewrite ?A, ?B, ?A', ?B'; reflexivity. Qed.
+Global Instance cmul_proper : Proper (ceq ==> ceq ==> ceq) cmul.
+Proof. intros x x' [A B] y y' [A' B']; split; simpl; rewrite ?A, ?B, ?A', ?B'; reflexivity. Qed.
+Global Instance cconj_proper : Proper (ceq ==> ceq) cconj.
+Proof. intros x x' [A B]; split; simpl; rewrite ?A, ?B; reflexivity. Qed.
+Global Instance cnorm2_proper : Proper (ceq ==> Qeq) cnorm2.
+Proof. intros x x' [A B]; unfold cnorm2; rewrite A, B; reflexivity. Qed.
+Global Instance cre_proper : Proper (ceq ==> Qeq) cre.
+Proof. intros x x' [A B]; exact A. Qed.
+
+Lemma cadd_comm x y : ceq (cadd x y) (cadd y x). Proof. cring. Qed.
+Lemma cadd_assoc x y z : ceq (cadd (cadd x y) z) (cadd x (cadd y z)). Proof. cring. Qed.
+Lemma cadd_0_r x : ceq (cadd x c0) x. Proof. cring. Qed.
+Lemma cadd_0_l x : ceq (cadd c0 x) x. Proof. cring. Qed.
+Lemma cadd_shuffle a b c d : ceq (cadd (cadd a b) (cadd c d)) (cadd (cadd a c) (cadd b d)). Proof. cring. Qed.
+Lemma cmul_comm x y : ceq (cmul x y) (cmul y x). Proof. cring. Qed.
+Lemma cmul_assoc x y z : ceq (cmul (cmul x y) z) (cmul x (cmul y z)). Proof. cring. Qed.
+Lemma cmul_1_l x : ceq (cmul c1 x) x. Proof. cring. Qed.
+Lemma cmul_0_l x : ceq (cmul c0 x) c0. Proof. cring. Qed.
+Lemma cmul_0_r x : ceq (cmul x c0) c0. Proof. cring. Qed.
+Lemma cmul_add_r x y z : ceq (cmul x (cadd y z)) (cadd (cmul x y) (cmul x z)). Proof. cring. Qed.
+Lemma cmul_add_l x y z : ceq (cmul (cadd x y) z) (cadd (cmul x z) (cmul y z)). Proof. cring. Qed.
+
+Local Close Scope Q_scope.
+Local Open Scope nat_scope.
+
+(* ================================================================== tree equality *)
+Lemma teq_refl t : teq t t.
+Proof. induction t; simpl; auto using ceq_refl. Qed.
+Lemma teq_sym s : forall t, teq s t -> teq t s.
+Proof. induction s; destruct t; simpl; try tauto. apply ceq_sym. intuition. Qed.
+Lemma teq_trans s : forall t u, teq s t -> teq t u -> teq s u.
+Proof.
+  induction s; destruct t, u; simpl; try tauto. apply ceq_trans.
+  intros (A & B & C' & D) (A' & B' & C'' & D'); repeat split; eauto.
+Qed.
+Add Parametric Relation : qt teq
+  reflexivity proved by teq_refl symmetry proved by teq_sym transitivity proved by teq_trans as teq_rel.
+
+Lemma teq_wf n : forall s t, teq s t -> wf n s -> wf n t.
+Proof.
+  induction n; destruct s, t; simpl; try tauto.
+  intros (A & B & C' & D) (A' & B' & C'' & D'); repeat split; eauto.
+Qed.
+
+Lemma tadd_teq s : forall s' t t', teq s s' -> teq t t' -> teq (tadd s t) (tadd s' t').
+Proof.
+  induction s; intros s' t t' Hs Ht; destruct s', t, t'; simpl in *; try tauto; try apply ceq_refl;
+    try (rewrite Hs, Ht; reflexivity).
+  destruct Hs as (A & B & C' & D), Ht as (A' & B' & C'' & D'); repeat split; auto.
+Qed.
+Global Instance tadd_proper : Proper (teq ==> teq ==> teq) tadd.
+Proof. intros s s' Hs t t' Ht; apply tadd_teq; auto. Qed.
+Lemma tscale_teq k k' t : forall t', ceq k k' -> teq t t' -> teq (tscale k t) (tscale k' t').
+Proof.
+  induction t; intros t' Hk Ht; destruct t'; simpl in *; try tauto.
+  - rewrite Hk, Ht; reflexivity.
+  - destruct Ht as (A & B & C' & D); repeat split; auto.
+Qed.
+Global Instance tscale_proper : Proper (ceq ==> teq ==> teq) tscale.
+Proof. intros k k' Hk t t' Ht; apply tscale_teq; auto. Qed.
+Global Instance ttrace_proper : Proper (teq ==> ceq) ttrace.
+Proof.
+  intros t; induction t; intros t' Ht; destruct t'; simpl in *; try tauto.
+  destruct Ht as (A & B & C' & D). rewrite (IHt1 _ A), (IHt4 _ D); reflexivity.
+Qed.
+Lemma tget_proper t : forall t' r c, teq t t' -> ceq (tget t r c) (tget t' r c).
+Proof.
+  induction t; intros t' r c Ht; destruct t'; simpl in *; try tauto.
+  destruct Ht as (A & B & C' & D). destruct r as [|br r], c as [|bc c]; try reflexivity.
+  destruct br, bc; auto.
+Qed.
+
+(* ---------------------------------------------------------------- well-formedness of the operations *)
+Lemma wf_tadd n : forall s t, wf n s -> wf n t -> wf n (tadd s t).
+Proof. induction n; destruct s, t; simpl; try tauto. intuition. Qed.
+Lemma wf_tscale n k : forall t, wf n t -> wf n (tscale k t).
+Proof. induction n; destruct t; simpl; try tauto. intuition. Qed.
+Lemma wf_tzero n : wf n (tzero n).
+Proof. induction n; simpl; auto. Qed.
+Lemma wf_teye n : wf n (teye n).
+Proof. induction n; simpl; auto using wf_tzero. Qed.
+Lemma wf_tkron n m : forall s t, wf n s -> wf m t -> wf (n + m) (tkron s t).
+Proof. induction n; destruct s; simpl; try tauto; intros. apply wf_tscale; auto. intuition. Qed.
+Lemma wf_tmul n : forall s t, wf n s -> wf n t -> wf n (tmul s t).
+Proof. induction n; destruct s, t; simpl; try tauto. intuition auto using wf_tadd. Qed.
+Lemma wf_tbuild n : forall f, wf n (tbuild n f).
+Proof. induction n; simpl; auto. Qed.
+
+(* ---------------------------------------------------------------- additive laws *)
+Lemma tadd_comm n : forall s t, wf n s -> wf n t -> teq (tadd s t) (tadd t s).
+Proof. induction n; destruct s, t; simpl; try tauto; intros. apply cadd_comm. intuition. Qed.
+Lemma tadd_shuffle n : forall a b c d, wf n a -> wf n b -> wf n c -> wf n d ->
+  teq (tadd (tadd a b) (tadd c d)) (tadd (tadd a c) (tadd b d)).
+Proof.
+  induction n; destruct a, b, c, d; simpl; try tauto; intros. apply cadd_shuffle.
+  intuition.
+Qed.
+Lemma tadd_zero_r n : forall t, wf n t -> teq (tadd t (tzero n)) t.
+Proof. induction n; destruct t; simpl; try tauto; intros. apply cadd_0_r. intuition. Qed.
+Lemma tadd_zero_l n : forall t, wf n t -> teq (tadd (tzero n) t) t.
+Proof. induction n; destruct t; simpl; try tauto; intros. apply cadd_0_l. intuition. Qed.
+Lemma ttrace_tadd n : forall s t, wf n s -> wf n t -> ceq (ttrace (tadd s t)) (cadd (ttrace s) (ttrace t)).
+Proof.
+  induction n; destruct s, t; simpl; try tauto; intros. reflexivity.
+  destruct H as (A & _ & _ & D), H0 as (A' & _ & _ & D').
+  rewrite (IHn _ _ A A'), (IHn _ _ D D'). apply cadd_shuffle.
+Qed.
+Lemma ttrace_tscale k : forall t, ceq (ttrace (tscale k t)) (cmul k (ttrace t)).
+Proof. induction t; simpl. reflexivity. rewrite IHt1, IHt4. symmetry; apply cmul_add_r. Qed.
+Lemma tscale_tadd n k : forall s t, wf n s -> wf n t -> teq (tscale k (tadd s t)) (tadd (tscale k s) (tscale k t)).
+Proof. induction n; destruct s, t; simpl; try tauto; intros. apply cmul_add_r. intuition. Qed.
+Lemma tscale_cadd n k k' : forall t, wf n t -> teq (tscale (cadd k k') t) (tadd (tscale k t) (tscale k' t)).
+Proof. induction n; destruct t; simpl; try tauto; intros. apply cmul_add_l. intuition. Qed.
+Lemma tscale_tscale k k' : forall t, teq (tscale k (tscale k' t)) (tscale (cmul k k') t).
+Proof. induction t; simpl. symmetry; apply cmul_assoc. auto. Qed.
+Lemma tscale_1 : forall t, teq (tscale c1 t) t.
+Proof. induction t; simpl. apply cmul_1_l. auto. Qed.
+Lemma tscale_0 n : forall t, wf n t -> teq (tscale c0 t) (tzero n).
+Proof. induction n; destruct t; simpl; try tauto; intros. apply cmul_0_l. intuition. Qed.
+Lemma tscale_tzero n k : teq (tscale k (tzero n)) (tzero n).
+Proof. induction n; simpl. apply cmul_0_r. auto. Qed.
+
+(* ================================================================== partial trace *)
+Lemma wf_ptrace1 m : forall p t, wf (S m) t -> p <= m -> wf m (ptrace1 p t).
+Proof.
+  induction m; intros p t; destruct t; simpl; try tauto; intros (A & B & C' & D) Hp.
+  - assert (p = 0) by lia; subst. apply (wf_tadd 0); auto.
+  - destruct p. apply (wf_tadd (S m)); auto.
+    assert (p <= m) by lia. simpl. repeat split; apply IHm; auto.
+Qed.
+Lemma ptrace1_id n : forall p t, wf n t -> n <= p -> ptrace1 p t = t.
+Proof.
+  induction n; intros p t; destruct t; simpl; try tauto; try (destruct p; reflexivity); intros (A & B & C' & D) Hp.
+  destruct p; [lia|]. simpl. rewrite (IHn p t1), (IHn p t2), (IHn p t3), (IHn p t4); auto; lia.
+Qed.
+Lemma wf_ptrace1_ex n p t : wf n t -> exists m, wf m (ptrace1 p t).
+Proof.
+  intros H. destruct (le_lt_dec n p).
+  - exists n. rewrite (ptrace1_id n); auto.
+  - destruct n; [lia|]. exists n. apply wf_ptrace1; auto; lia.
+Qed.
+Lemma ttrace_ptrace1 n : forall p t, wf n t -> ceq (ttrace (ptrace1 p t)) (ttrace t).
+Proof.
+  induction n; intros p t; destruct t; simpl; try tauto; try (destruct p; reflexivity); intros (A & B & C' & D).
+  destruct p; simpl.
+  - apply (ttrace_tadd n); auto.
+  - rewrite (IHn p t1 A), (IHn p t4 D). reflexivity.
+Qed.
+Lemma ttrace_pt_loop : forall idxs t i n, wf n t -> ceq (ttrace (pt_loop t i idxs)) (ttrace t).
+Proof.
+  induction idxs; intros t i n H; simpl. reflexivity.
+  destruct (wf_ptrace1_ex n (a - i) t H) as [m Hm].
+  rewrite (IHidxs _ _ _ Hm). apply (ttrace_ptrace1 n); auto.
+Qed.
+Lemma partial_trace_trace n t idxs : wf n t -> ceq (ttrace (partial_trace t idxs)) (ttrace t).
+Proof. apply ttrace_pt_loop. Qed.
+
+(* ---------------------------------------------------------------- mask version *)
+Lemma count_false_true m : count_false (true :: m) = count_false m.
+Proof. reflexivity. Qed.
+Lemma count_false_false m : count_false (false :: m) = S (count_false m).
+Proof. reflexivity. Qed.
+
+Lemma wf_ptm : forall m n t, length m = n -> wf n t -> wf (count_false m) (ptrace_mask m t).
+Proof.
+  induction m as [|b m]; intros n t Hl H; simpl in Hl; subst n.
+  - destruct t; simpl in *; tauto.
+  - destruct t; simpl in H; try tauto. destruct H as (A & B & C' & D).
+    destruct b; simpl ptrace_mask.
+    + rewrite count_false_true. apply wf_tadd; eapply IHm; eauto.
+    + rewrite count_false_false. simpl. repeat split; eapply IHm; eauto.
+Qed.
+Lemma ptm_teq : forall m t t', teq t t' -> teq (ptrace_mask m t) (ptrace_mask m t').
+Proof.
+  induction m as [|b m]; intros t t' H.
+  - destruct t, t'; simpl in *; tauto.
+  - destruct t, t'; simpl in H; try tauto. destruct b; simpl; auto.
+    destruct H as (A & B & C' & D). destruct b; simpl.
+    + apply tadd_teq; auto.
+    + repeat split; auto.
+Qed.
+Lemma ptm_tadd : forall m n s t, length m = n -> wf n s -> wf n t ->
+  teq (ptrace_mask m (tadd s t)) (tadd (ptrace_mask m s) (ptrace_mask m t)).
+Proof.
+  induction m as [|b m]; intros n s t Hl Hs Ht; simpl in Hl; subst n.
+  - destruct s, t; simpl in *; try tauto. apply ceq_refl.
+  - destruct s, t; simpl in Hs, Ht; try tauto.
+    destruct Hs as (A & B & C' & D), Ht as (A' & B' & C'' & D').
+    destruct b; simpl.
+    + rewrite (IHm _ _ _ eq_refl A A'), (IHm _ _ _ eq_refl D D').
+      apply (tadd_shuffle (count_false m)); eapply wf_ptm; eauto.
+    + repeat split; eapply IHm; eauto.
+Qed.
+Lemma ttrace_ptm : forall m n t, length m = n -> wf n t -> ceq (ttrace (ptrace_mask m t)) (ttrace t).
+Proof.
+  induction m as [|b m]; intros n t Hl H; simpl in Hl; subst n.
+  - destruct t; simpl in *; try tauto. reflexivity.
+  - destruct t; simpl in H; try tauto. destruct H as (A & B & C' & D).
+    destruct b; simpl.
+    + rewrite (ttrace_tadd (count_false m)) by (eapply wf_ptm; eauto).
+      rewrite (IHm _ _ eq_refl A), (IHm _ _ eq_refl D). reflexivity.
+    + rewrite (IHm _ _ eq_refl A), (IHm _ _ eq_refl D). reflexivity.
+Qed.
+
+Lemma ptm_compose : forall m1 n t m2, length m1 = n -> length m2 = count_false m1 -> wf n t ->
+  teq (ptrace_mask m2 (ptrace_mask m1 t)) (ptrace_mask (mask_merge m1 m2) t).
+Proof.
+  induction m1 as [|b m1]; intros n t m2 Hl Hl2 H; simpl in Hl; subst n.
+  - destruct m2; simpl in Hl2; try discriminate. destruct t; simpl in *; try tauto. apply ceq_refl.
+  - destruct t; simpl in H; try tauto. destruct H as (A & B & C' & D).
+    destruct b.
+    + rewrite count_false_true in Hl2. simpl.
+      rewrite (ptm_tadd m2 (count_false m1)); auto; try (eapply wf_ptm; eauto).
+      apply tadd_teq; eapply IHm1; eauto.
+    + rewrite count_false_false in Hl2. destruct m2 as [|b2 m2]; simpl in Hl2; try discriminate.
+      injection Hl2 as Hl2. destruct b2; simpl.
+      * apply tadd_teq; eapply IHm1; eauto.
+      * repeat split; eapply IHm1; eauto.
+Qed.
+
+(* ---------------------------------------------------------------- the transcribed loop equals the mask contraction *)
+Lemma strictb_cons x r : strictb (x :: r) = true -> strictb r = true /\ Forall (fun y => x < y) r.
+Proof.
+  revert x; induction r as [|y r]; intros x H. split; [reflexivity|constructor].
+  simpl in H. apply andb_true_iff in H. destruct H as [H1 H2]. apply Nat.ltb_lt in H1.
+  destruct (IHr y H2) as [H3 H4]. split. exact H2.
+  constructor. exact H1. eapply Forall_impl; [|exact H4]. simpl; intros; lia.
+Qed.
+Lemma mem_false_lt i : forall l, Forall (fun y => i < y) l -> mem i l = false.
+Proof.
+  induction l; intros H; simpl. reflexivity. inversion H; subst.
+  rewrite IHl by assumption. destruct (Nat.eqb_spec i a); [lia|reflexivity].
+Qed.
+Lemma mask_off_S n i idxs : mask_off (S n) i idxs = mem i idxs :: mask_off n (S i) idxs.
+Proof. reflexivity. Qed.
+Lemma mask_off_length n : forall i idxs, length (mask_off n i idxs) = n.
+Proof. intros; unfold mask_off; rewrite map_length, seq_length; reflexivity. Qed.
+Lemma mask_off_cons_lt n : forall i x r, x < i -> mask_off n i (x :: r) = mask_off n i r.
+Proof.
+  intros i x r H. unfold mask_off. apply map_ext_in. intros j Hj. apply in_seq in Hj. simpl.
+  destruct (Nat.eqb_spec j x); [lia|reflexivity].
+Qed.
+
+Lemma pt_loop_node : forall idxs i a b c d, strictb idxs = true -> Forall (fun x => i < x) idxs ->
+  pt_loop (QN a b c d) i idxs =
+  QN (pt_loop a (S i) idxs) (pt_loop b (S i) idxs) (pt_loop c (S i) idxs) (pt_loop d (S i) idxs).
+Proof.
+  induction idxs as [|x r]; intros i a b c d Hs Hf. reflexivity.
+  inversion Hf; subst. destruct (strictb_cons _ _ Hs) as [Hs' Hr].
+  simpl pt_loop. replace (x - i) with (S (x - S i)) by lia. simpl ptrace1.
+  rewrite IHr; auto. eapply Forall_impl; [|exact Hr]. simpl; intros; lia.
+Qed.
+
+Lemma pt_loop_mask : forall n t idxs i, wf n t -> strictb idxs = true ->
+  Forall (fun x => i <= x /\ x < n + i) idxs ->
+  teq (pt_loop t i idxs) (ptrace_mask (mask_off n i idxs) t).
+Proof.
+  induction n; intros t idxs i H Hs Hf.
+  - destruct idxs as [|x r]. destruct t; simpl in *; try tauto. apply ceq_refl.
+    inversion Hf; subst. lia.
+  - destruct t; simpl in H; try tauto. destruct H as (A & B & C' & D).
+    rewrite mask_off_S. destruct idxs as [|x r].
+    + simpl mem. simpl pt_loop. simpl ptrace_mask.
+      repeat split; apply (IHn _ [] (S i)); auto.
+    + inversion Hf as [|? ? [Hx1 Hx2] Hf']; subst. destruct (strictb_cons _ _ Hs) as [Hs' Hr].
+      destruct (Nat.eq_dec x i) as [->|Hne].
+      * simpl mem. rewrite Nat.eqb_refl. simpl orb. simpl pt_loop. rewrite Nat.sub_diag. simpl ptrace1.
+        simpl ptrace_mask. rewrite mask_off_cons_lt by lia.
+        rewrite <- (ptm_tadd _ n) by (auto using mask_off_length).
+        apply IHn; auto. apply wf_tadd; auto.
+        rewrite Forall_forall in *. intros y Hy. specialize (Hr y Hy). specialize (Hf' y Hy). lia.
+      * assert (Hall : Forall (fun y => i < y) (x :: r)).
+        { constructor. lia. eapply Forall_impl; [|exact Hr]. simpl; intros; lia. }
+        rewrite (mem_false_lt i (x :: r) Hall). rewrite pt_loop_node by assumption.
+        simpl ptrace_mask.
+        assert (Hf2 : Forall (fun y => S i <= y /\ y < n + S i) (x :: r)).
+        { rewrite Forall_forall in *. intros y Hy. specialize (Hall y Hy). specialize (Hf y Hy). lia. }
+        repeat split; apply IHn; auto.
+Qed.
+
+(* insertion sort facts *)
+Lemma mem_insert x y : forall l, mem x (insert y l) = Nat.eqb x y || mem x l.
+Proof.
+  induction l; simpl. reflexivity. destruct (Nat.leb y a); simpl. reflexivity.
+  rewrite IHl. destruct (Nat.eqb x y), (Nat.eqb x a); reflexivity.
+Qed.
+Lemma mem_isort x : forall l, mem x (isort l) = mem x l.
+Proof. induction l; simpl. reflexivity. rewrite mem_insert, IHl. reflexivity. Qed.
+Lemma Forall_insert (P : nat -> Prop) y : forall l, P y -> Forall P l -> Forall P (insert y l).
+Proof.
+  induction l; simpl; intros Hy Hl. constructor; auto. inversion Hl; subst.
+  destruct (Nat.leb y a); constructor; auto.
+Qed.
+Lemma Forall_isort (P : nat -> Prop) : forall l, Forall P l -> Forall P (isort l).
+Proof. induction l; simpl; intros H. constructor. inversion H; subst. apply Forall_insert; auto. Qed.
+Lemma mask_off_isort n i l : mask_off n i (isort l) = mask_off n i l.
+Proof. unfold mask_off. apply map_ext. intros; apply mem_isort. Qed.
+
+Lemma partial_trace_mask n t idxs : wf n t -> strictb (isort idxs) = true -> Forall (fun x => x < n) idxs ->
+  teq (partial_trace t idxs) (ptrace_mask (mask_of n idxs) t).
+Proof.
+  intros H Hs Hf. unfold partial_trace.
+  change (mask_of n idxs) with (mask_off n 0 idxs). rewrite <- mask_off_isort.
+  apply pt_loop_mask; auto. apply Forall_isort. eapply Forall_impl; [|exact Hf]. simpl; intros; lia.
+Qed.
+
+(* ---------------------------------------------------------------- explicit index contraction *)
+Lemma csum_app l1 : forall l2, ceq (csum (l1 ++ l2)) (cadd (csum l1) (csum l2)).
+Proof.
+  induction l1; intros l2; simpl. symmetry; apply cadd_0_l.
+  rewrite IHl1. symmetry; apply cadd_assoc.
+Qed.
+Lemma tget_tadd n : forall s t r c, wf n s -> wf n t ->
+  ceq (tget (tadd s t) r c) (cadd (tget s r c) (tget t r c)).
+Proof.
+  induction n; destruct s, t; simpl; try tauto; intros r c Hs Ht. reflexivity.
+  destruct Hs as (A & B & C' & D), Ht as (A' & B' & C'' & D').
+  destruct r as [|br r], c as [|bc c]; try (symmetry; apply cadd_0_l).
+  destruct br, bc; apply IHn; auto.
+Qed.
+Lemma count_true_true m : count_true (true :: m) = S (count_true m).
+Proof. reflexivity. Qed.
+Lemma count_true_false m : count_true (false :: m) = count_true m.
+Proof. reflexivity. Qed.
+
+Lemma ptm_contraction : forall m n t r c, length m = n -> wf n t ->
+  length r = count_false m -> length c = count_false m ->
+  ceq (tget (ptrace_mask m t) r c) (contraction m t r c).
+Proof.
+  induction m as [|b m]; intros n t r c Hl H Hr Hc; simpl in Hl; subst n.
+  - destruct t; simpl in H; try tauto. unfold contraction. simpl. symmetry; apply cadd_0_r.
+  - destruct t; simpl in H; try tauto. destruct H as (A & B & C' & D). destruct b.
+    + rewrite count_false_true in Hr, Hc. simpl ptrace_mask.
+      rewrite (tget_tadd (count_false m)) by (eapply wf_ptm; eauto).
+      rewrite (IHm _ t1 r c eq_refl A Hr Hc), (IHm _ t4 r c eq_refl D Hr Hc).
+      unfold contraction. rewrite count_true_true. simpl all_bits. rewrite map_app, !map_map, csum_app.
+      simpl. reflexivity.
+    + rewrite count_false_false in Hr, Hc.
+      destruct r as [|br r]; [discriminate|]. destruct c as [|bc c]; [discriminate|].
+      injection Hr as Hr. injection Hc as Hc.
+      unfold contraction. rewrite count_true_false. simpl interleave. simpl ptrace_mask.
+      destruct br, bc; simpl tget; eapply IHm; eauto.
+Qed.
+
+(* ---------------------------------------------------------------- product states *)
+Lemma ptm_all_true : forall k t, wf k t -> teq (ptrace_mask (repeat true k) t) (QL (ttrace t)).
+Proof.
+  induction k; destruct t; simpl; try tauto; intros H. apply ceq_refl.
+  destruct H as (A & _ & _ & D). rewrite (IHk _ A), (IHk _ D). simpl. apply ceq_refl.
+Qed.
+Lemma ptm_tscale : forall m n k t, length m = n -> wf n t ->
+  teq (ptrace_mask m (tscale k t)) (tscale k (ptrace_mask m t)).
+Proof.
+  induction m as [|b m]; intros n k t Hl H; simpl in Hl; subst n.
+  - destruct t; simpl in *; try tauto. apply ceq_refl.
+  - destruct t; simpl in H; try tauto. destruct H as (A & B & C' & D). destruct b; simpl.
+    + rewrite (IHm _ k _ eq_refl A), (IHm _ k _ eq_refl D).
+      symmetry. apply (tscale_tadd (count_false m)); eapply wf_ptm; eauto.
+    + repeat split; eapply IHm; eauto.
+Qed.
+(* tracing out the B part of A (x) B *)
+Lemma ptm_kron_keep_left : forall k j A B, wf k A -> wf j B ->
+  teq (ptrace_mask (repeat false k ++ repeat true j) (tkron A B)) (tscale (ttrace B) A).
+Proof.
+  induction k; destruct A; simpl; try tauto; intros B HA HB.
+  - rewrite (ptm_tscale _ j) by (auto using repeat_length).
+    rewrite (ptm_all_true j B HB). simpl. apply cmul_comm.
+  - destruct HA as (W1 & W2 & W3 & W4). repeat split; apply IHk; auto.
+Qed.
+(* tracing out the A part of A (x) B *)
+Lemma ptm_kron_keep_right : forall k j A B, wf k A -> wf j B ->
+  teq (ptrace_mask (repeat true k ++ repeat false j) (tkron A B)) (tscale (ttrace A) B).
+Proof.
+  induction k; destruct A; simpl; try tauto; intros B HA HB.
+  - assert (E : forall j B, wf j B -> teq (ptrace_mask (repeat false j) B) B).
+    { clear. induction j; destruct B; simpl; try tauto; intros H. apply ceq_refl. intuition. }
+    apply E. apply wf_tscale; auto.
+  - destruct HA as (W1 & W2 & W3 & W4).
+    rewrite (IHk j A1 B W1 HB), (IHk j A4 B W4 HB).
+    symmetry. apply (tscale_cadd j); auto.
+Qed.
+
+(* ---------------------------------------------------------------- reduce_statevector = partial trace of |psi><psi| *)
+Lemma rsv_is_ptm : forall m n u v, length m = n -> vwf n u -> vwf n v ->
+  rsv m u v = ptrace_mask m (vouter u v).
+Proof.
+  induction m as [|b m]; intros n u v Hl Hu Hv; simpl in Hl; subst n.
+  - destruct u, v; simpl in *; try tauto.
+  - destruct u, v; simpl in Hu, Hv; try tauto. destruct Hu as [U0 U1], Hv as [V0 V1].
+    destruct b; simpl.
+    + rewrite (IHm _ u1 v1 eq_refl U0 V0), (IHm _ u2 v2 eq_refl U1 V1). reflexivity.
+    + rewrite (IHm _ u1 v1 eq_refl U0 V0), (IHm _ u1 v2 eq_refl U0 V1),
+              (IHm _ u2 v1 eq_refl U1 V0), (IHm _ u2 v2 eq_refl U1 V1). reflexivity.
+Qed.
+Lemma wf_vouter n : forall u v, vwf n u -> vwf n v -> wf n (vouter u v).
+Proof. induction n; destruct u, v; simpl; try tauto. intuition. Qed.
+Lemma vwf_vconj n : forall v, vwf n v -> vwf n (vconj v).
+Proof. induction n; destruct v; simpl; try tauto. intuition. Qed.
+
+(* ================================================================== fidelity and purity of pure states *)
+Lemma vdot_teq_comm n : forall u v, vwf n u -> vwf n v -> ceq (vdot u v) (vdot v u).
+Proof.
+  induction n; destruct u, v; simpl; try tauto; intros Hu Hv. apply cmul_comm.
+  destruct Hu, Hv. rewrite (IHn u1 v1), (IHn u2 v2); auto. reflexivity.
+Qed.
+Lemma cconj_cadd x y : ceq (cconj (cadd x y)) (cadd (cconj x) (cconj y)). Proof. cring. Qed.
+Lemma cconj_cmul x y : ceq (cconj (cmul x y)) (cmul (cconj x) (cconj y)). Proof. cring. Qed.
+Lemma cconj_invol x : ceq (cconj (cconj x)) x. Proof. cring. Qed.
+Lemma cnorm2_cconj x : (cnorm2 (cconj x) == cnorm2 x)%Q. Proof. cnorm. ring. Qed.
+Lemma cnorm2_nonneg x : (0 <= cnorm2 x)%Q.
+Proof. unfold cnorm2. nra. Qed.
+
+Lemma vdot_vconj_swap n : forall u v, vwf n u -> vwf n v ->
+  ceq (vdot v (vconj u)) (cconj (vdot u (vconj v))).
+Proof.
+  induction n; destruct u, v; simpl; try tauto; intros Hu Hv. cring.
+  destruct Hu, Hv. rewrite (IHn u1 v1), (IHn u2 v2); auto. symmetry; apply cconj_cadd.
+Qed.
+
+Lemma fidelity_sym n u v : vwf n u -> vwf n v ->
+  (fidelity_statevector u v == fidelity_statevector v u)%Q.
+Proof.
+  intros Hu Hv. unfold fidelity_statevector.
+  rewrite (vdot_vconj_swap n u v Hu Hv). symmetry; apply cnorm2_cconj.
+Qed.
+Lemma fidelity_nonneg u v : (0 <= fidelity_statevector u v)%Q.
+Proof. apply cnorm2_nonneg. Qed.
+
+Lemma vnorm2_nonneg n : forall u, vwf n u -> (0 <= vnorm2 u)%Q.
+Proof.
+  induction n; destruct u; simpl; try tauto; intros H.
+  - unfold vnorm2. simpl. cnorm. nra.
+  - destruct H as [H1 H2]. specialize (IHn _ H1) as I1. specialize (IHn _ H2) as I2.
+    unfold vnorm2 in *. simpl. cnorm. lra.
+Qed.
+Lemma vnorm2_node u0 u1 : (vnorm2 (VN u0 u1) == vnorm2 u0 + vnorm2 u1)%Q.
+Proof. unfold vnorm2. simpl. cnorm. reflexivity. Qed.
+
+(* the arithmetic core of Cauchy-Schwarz when two blocks are joined *)
+Lemma sq_nonneg (y : Q) : (0 <= y * y)%Q.
+Proof. nra. Qed.
+Lemma le_of_sq (x y : Q) : (0 <= y -> x * x <= y * y -> x <= y)%Q.
+Proof.
+  intros Hy H. destruct (Qlt_le_dec y x) as [Hlt|]; [|assumption]. exfalso.
+  assert (y * y < x * x)%Q by nra. lra.
+Qed.
+Lemma cs_join (a b c d A0 A1 B0 B1 : Q) :
+  (0 <= A0 -> 0 <= A1 -> 0 <= B0 -> 0 <= B1 ->
+   a * a + b * b <= A0 * B0 -> c * c + d * d <= A1 * B1 ->
+   (a + c) * (a + c) + (b + d) * (b + d) <= (A0 + A1) * (B0 + B1))%Q.
+Proof.
+  intros HA0 HA1 HB0 HB1 H0 H1.
+  assert (HP : (0 <= A0 * B1)%Q) by (apply Qmult_le_0_compat; assumption).
+  assert (HR : (0 <= A1 * B0)%Q) by (apply Qmult_le_0_compat; assumption).
+  assert (Hl : ((a * c + b * d) * (a * c + b * d) <= (a * a + b * b) * (c * c + d * d))%Q).
+  { pose proof (sq_nonneg (a * d - b * c)) as S.
+    assert (E : ((a * a + b * b) * (c * c + d * d) ==
+                 (a * c + b * d) * (a * c + b * d) + (a * d - b * c) * (a * d - b * c))%Q) by ring.
+    rewrite E. lra. }
+  assert (Hm : ((a * a + b * b) * (c * c + d * d) <= (A0 * B0) * (A1 * B1))%Q).
+  { pose proof (sq_nonneg a). pose proof (sq_nonneg b). pose proof (sq_nonneg c). pose proof (sq_nonneg d).
+    apply Qle_trans with ((A0 * B0) * (c * c + d * d))%Q.
+    - apply Qmult_le_compat_r. assumption. lra.
+    - rewrite (Qmult_comm (A0 * B0) (c * c + d * d)), (Qmult_comm (A0 * B0) (A1 * B1)).
+      apply Qmult_le_compat_r. assumption. lra. }
+  assert (H2 : (2 * (a * c + b * d) <= A0 * B1 + A1 * B0)%Q).
+  { apply le_of_sq. lra.
+    pose proof (sq_nonneg (A0 * B1 - A1 * B0)) as S.
+    assert (E : ((A0 * B1 + A1 * B0) * (A0 * B1 + A1 * B0) ==
+                 4 * ((A0 * B0) * (A1 * B1)) + (A0 * B1 - A1 * B0) * (A0 * B1 - A1 * B0))%Q) by ring.
+    rewrite E.
+    assert (E2 : (2 * (a * c + b * d) * (2 * (a * c + b * d)) == 4 * ((a * c + b * d) * (a * c + b * d)))%Q) by ring.
+    rewrite E2. lra. }
+  assert (E : ((a + c) * (a + c) + (b + d) * (b + d) ==
+               (a * a + b * b) + (c * c + d * d) + 2 * (a * c + b * d))%Q) by ring.
+  assert (E' : ((A0 + A1) * (B0 + B1) == A0 * B0 + A1 * B1 + (A0 * B1 + A1 * B0))%Q) by ring.
+  rewrite E, E'. lra.
+Qed.
+
+Lemma cauchy_schwarz n : forall u v, vwf n u -> vwf n v ->
+  (cnorm2 (vdot u (vconj v)) <= vnorm2 u * vnorm2 v)%Q.
+Proof.
+  induction n; destruct u, v; simpl; try tauto; intros Hu Hv.
+  - unfold vnorm2. simpl. cnorm. apply Qle_lteq; right; ring.
+  - destruct Hu as [U0 U1], Hv as [V0 V1].
+    specialize (IHn _ _ U0 V0) as I0. specialize (IHn _ _ U1 V1) as I1.
+    rewrite !vnorm2_node.
+    pose proof (vnorm2_nonneg n _ U0). pose proof (vnorm2_nonneg n _ U1).
+    pose proof (vnorm2_nonneg n _ V0). pose proof (vnorm2_nonneg n _ V1).
+    destruct (vdot u1 (vconj v1)) as [a b]. destruct (vdot u2 (vconj v2)) as [c d].
+    unfold cnorm2, cadd in *; simpl fst in *; simpl snd in *.
+    apply cs_join; assumption.
+Qed.
+Lemma fidelity_le_norms n u v : vwf n u -> vwf n v ->
+  (fidelity_statevector u v <= vnorm2 u * vnorm2 v)%Q.
+Proof. apply cauchy_schwarz. Qed.
+Lemma fidelity_le_1 n u v : vwf n u -> vwf n v -> (vnorm2 u == 1)%Q -> (vnorm2 v == 1)%Q ->
+  (fidelity_statevector u v <= 1)%Q.
+Proof.
+  intros Hu Hv Nu Nv. pose proof (fidelity_le_norms n u v Hu Hv) as H. rewrite Nu, Nv in H.
+  eapply Qle_trans. exact H. apply Qle_lteq; right; ring.
+Qed.
+
+(* tr(|u><v| |u'><v'|) = <v,u'> <v',u>  (bilinear forms, conjugations are inside v, v') *)
+Lemma trprod_proper_l s : forall s' t, teq s s' -> ceq (trprod s t) (trprod s' t).
+Proof.
+  induction s; intros s' t H; destruct s', t; simpl in *; try tauto; try reflexivity.
+  rewrite H; reflexivity.
+  destruct H as (A & B & C' & D).
+  rewrite (IHs1 _ _ A), (IHs2 _ _ B), (IHs3 _ _ C'), (IHs4 _ _ D). reflexivity.
+Qed.
+Lemma trprod_vouter n : forall u v u' v', vwf n u -> vwf n v -> vwf n u' -> vwf n v' ->
+  ceq (trprod (vouter u v) (vouter u' v')) (cmul (vdot u v') (vdot v u')).
+Proof.
+  induction n; destruct u, v, u', v'; simpl; try tauto; intros Hu Hv Hu' Hv'. cring.
+  destruct Hu as [U0 U1], Hv as [V0 V1], Hu' as [U0' U1'], Hv' as [V0' V1'].
+  rewrite (IHn u1 v1 u'1 v'1), (IHn u1 v2 u'2 v'1), (IHn u2 v1 u'1 v'2), (IHn u2 v2 u'2 v'2); auto.
+  cring.
+Qed.
+Lemma vdot_self_real n : forall u, vwf n u -> ceq (vdot u (vconj u)) (cofq (vnorm2 u)).
+Proof.
+  induction n; destruct u; simpl; try tauto; intros H.
+  - unfold vnorm2. simpl. cring.
+  - destruct H as [H1 H2]. destruct (IHn _ H1) as [_ E1]. destruct (IHn _ H2) as [_ E2].
+    unfold vnorm2, cofq, cre in *. simpl in *. split; simpl. reflexivity. rewrite E1, E2. ring.
+Qed.
+Lemma purity_pure n u : vwf n u ->
+  (compute_purity (vouter u (vconj u)) == vnorm2 u * vnorm2 u)%Q.
+Proof.
+  intros H. unfold compute_purity.
+  rewrite (trprod_vouter n u (vconj u) u (vconj u)); auto using vwf_vconj.
+  rewrite (vdot_teq_comm n (vconj u) u); auto using vwf_vconj.
+  rewrite (vdot_self_real n u H). cnorm. ring.
+Qed.
+Lemma purity_pure_normalised n u : vwf n u -> (vnorm2 u == 1)%Q ->
+  (compute_purity (vouter u (vconj u)) == 1)%Q.
+Proof. intros H N. rewrite (purity_pure n u H), N. ring. Qed.
+
+(* ================================================================== products, Kronecker expansion *)
+
+Lemma tmul_teq s : forall s' t t', teq s s' -> teq t t' -> teq (tmul s t) (tmul s' t').
+Proof.
+  induction s; intros s' t t' Hs Ht; destruct s', t, t'; simpl in *; try tauto; try apply ceq_refl;
+    try (rewrite Hs, Ht; reflexivity).
+  destruct Hs as (A & B & C' & D), Ht as (A' & B' & C'' & D'); repeat split; apply tadd_teq; auto.
+Qed.
+Lemma tkron_teq s : forall s' t t', teq s s' -> teq t t' -> teq (tkron s t) (tkron s' t').
+Proof.
+  induction s; intros s' t t' Hs Ht; destruct s'; simpl in *; try tauto.
+  apply tscale_teq; auto. destruct Hs as (A & B & C' & D). repeat split; auto.
+Qed.
+Global Instance tmul_proper : Proper (teq ==> teq ==> teq) tmul.
+Proof. intros s s' Hs t t' Ht; apply tmul_teq; auto. Qed.
+Global Instance tkron_proper : Proper (teq ==> teq ==> teq) tkron.
+Proof. intros s s' Hs t t' Ht; apply tkron_teq; auto. Qed.
+Lemma tmul_tzero_l n : forall t, wf n t -> teq (tmul (tzero n) t) (tzero n).
+Proof.
+  induction n; destruct t; simpl; try tauto; intros H. apply cmul_0_l.
+  destruct H as (A & B & C' & D). rewrite !IHn by auto.
+  repeat split; apply tadd_zero_l; apply wf_tzero.
+Qed.
+Lemma tmul_tzero_r n : forall t, wf n t -> teq (tmul t (tzero n)) (tzero n).
+Proof.
+  induction n; destruct t; simpl; try tauto; intros H. apply cmul_0_r.
+  destruct H as (A & B & C' & D). rewrite !IHn by auto.
+  repeat split; apply tadd_zero_l; apply wf_tzero.
+Qed.
+Lemma tmul_tscale_l n k : forall s t, wf n s -> wf n t -> teq (tmul (tscale k s) t) (tscale k (tmul s t)).
+Proof.
+  induction n; destruct s, t; simpl; try tauto; intros Hs Ht. apply cmul_assoc.
+  destruct Hs as (A & B & C' & D), Ht as (A' & B' & C'' & D').
+  rewrite !(tscale_tadd n) by (apply wf_tmul; auto). rewrite !IHn by auto.
+  repeat split; reflexivity.
+Qed.
+Lemma tmul_tscale_r n k : forall s t, wf n s -> wf n t -> teq (tmul s (tscale k t)) (tscale k (tmul s t)).
+Proof.
+  induction n; destruct s, t; simpl; try tauto; intros Hs Ht. cring.
+  destruct Hs as (A & B & C' & D), Ht as (A' & B' & C'' & D').
+  rewrite !(tscale_tadd n) by (apply wf_tmul; auto). rewrite !IHn by auto.
+  repeat split; reflexivity.
+Qed.
+Lemma tmul_teye_l n : forall t, wf n t -> teq (tmul (teye n) t) t.
+Proof.
+  induction n; destruct t; simpl; try tauto; intros H. apply cmul_1_l.
+  destruct H as (A & B & C' & D). rewrite !IHn, !tmul_tzero_l by auto.
+  repeat split; first [apply tadd_zero_r | apply tadd_zero_l]; auto.
+Qed.
+Lemma tmul_teye_r n : forall t, wf n t -> teq (tmul t (teye n)) t.
+Proof.
+  induction n; destruct t; simpl; try tauto; intros H. cring.
+  destruct H as (A & B & C' & D). rewrite !IHn, !tmul_tzero_r by auto.
+  repeat split; first [apply tadd_zero_r | apply tadd_zero_l]; auto.
+Qed.
+Lemma tkron_tadd_l n m : forall a b t, wf n a -> wf n b -> wf m t ->
+  teq (tkron (tadd a b) t) (tadd (tkron a t) (tkron b t)).
+Proof.
+  induction n; destruct a, b; simpl; try tauto; intros t Ha Hb Ht. apply (tscale_cadd m); auto.
+  destruct Ha as (A & B & C' & D), Hb as (A' & B' & C'' & D'). repeat split; apply IHn; auto.
+Qed.
+Lemma tkron_tzero_l n m : forall t, wf m t -> teq (tkron (tzero n) t) (tzero (n + m)).
+Proof. induction n; simpl; intros t H. apply tscale_0; auto. repeat split; apply IHn; auto. Qed.
+
+Lemma kron_eye_r_hom k n : forall A B, wf n A -> wf n B ->
+  teq (tmul (tkron A (teye k)) (tkron B (teye k))) (tkron (tmul A B) (teye k)).
+Proof.
+  induction n; destruct A, B; simpl; try tauto; intros HA HB.
+  - rewrite (tmul_tscale_l k), (tmul_tscale_r k), (tmul_teye_l k), tscale_tscale;
+      auto using wf_teye, wf_tscale. reflexivity.
+  - destruct HA as (A & B & C' & D), HB as (A' & B' & C'' & D').
+    rewrite !IHn by auto.
+    repeat split; symmetry; apply (tkron_tadd_l n k); auto using wf_tmul, wf_teye.
+Qed.
+Lemma kron_eye_l_hom p n : forall A B, wf n A -> wf n B ->
+  teq (tmul (tkron (teye p) A) (tkron (teye p) B)) (tkron (teye p) (tmul A B)).
+Proof.
+  induction p; intros A B HA HB; simpl.
+  - rewrite !tscale_1. reflexivity.
+  - rewrite !(IHp A B HA HB).
+    assert (Z : forall X, wf n X -> teq (tkron (tzero p) X) (tzero (p + n))) by (intros; apply tkron_tzero_l; auto).
+    assert (WA : wf (p + n) (tkron (teye p) A)) by (apply wf_tkron; auto using wf_teye).
+    assert (WB : wf (p + n) (tkron (teye p) B)) by (apply wf_tkron; auto using wf_teye).
+    assert (WAB : wf (p + n) (tkron (teye p) (tmul A B))) by (apply wf_tkron; auto using wf_teye, wf_tmul).
+    assert (T1 : teq (tmul (tkron (tzero p) A) (tkron (tzero p) B)) (tzero (p + n))).
+    { rewrite (tmul_teq _ _ _ _ (Z A HA) (teq_refl _)). apply tmul_tzero_l. apply wf_tkron; auto using wf_tzero. }
+    assert (T2 : teq (tmul (tkron (teye p) A) (tkron (tzero p) B)) (tzero (p + n))).
+    { rewrite (tmul_teq _ _ _ _ (teq_refl _) (Z B HB)). apply tmul_tzero_r; auto. }
+    assert (T3 : teq (tmul (tkron (tzero p) A) (tkron (teye p) B)) (tzero (p + n))).
+    { rewrite (tmul_teq _ _ _ _ (Z A HA) (teq_refl _)). apply tmul_tzero_l; auto. }
+    rewrite T1, T2, T3, (Z _ (wf_tmul n A B HA HB)).
+    repeat split; first [apply tadd_zero_r; assumption | apply tadd_zero_l; auto using wf_tzero].
+Qed.
+Lemma kron_eye_eye p q : teq (tkron (teye p) (teye q)) (teye (p + q)).
+Proof.
+  induction p; simpl. apply tscale_1.
+  repeat split; auto; apply tkron_tzero_l; apply wf_teye.
+Qed.
+Lemma ttrace_tzero n : ceq (ttrace (tzero n)) c0.
+Proof. induction n; simpl. reflexivity. rewrite IHn. apply cadd_0_l. Qed.
+Lemma ttrace_teye k : ceq (ttrace (teye k)) (cofq (qpow2 k)).
+Proof. induction k; simpl. reflexivity. rewrite IHk. cring. Qed.
+Lemma expand_then_reduce_kron n k A : wf n A ->
+  teq (ptrace_mask (repeat false n ++ repeat true k) (tkron A (teye k))) (tscale (cofq (qpow2 k)) A).
+Proof.
+  intros H. rewrite (ptm_kron_keep_left n k A (teye k) H (wf_teye k)).
+  apply tscale_teq. apply ttrace_teye. reflexivity.
+Qed.
+
+(* ================================================================== entries: build/get laws, re-indexing *)
+Lemma tget_tbuild n : forall f r c, length r = n -> length c = n -> tget (tbuild n f) r c = f r c.
+Proof.
+  induction n; intros f r c Hr Hc.
+  - destruct r, c; try discriminate. reflexivity.
+  - destruct r as [|br r], c as [|bc c]; try discriminate. injection Hr as Hr. injection Hc as Hc.
+    destruct br, bc; simpl; rewrite IHn; auto.
+Qed.
+Lemma tbuild_tget n : forall t, wf n t -> tbuild n (tget t) = t.
+Proof.
+  induction n; destruct t; simpl; try tauto; try reflexivity; intros H.
+  destruct H as (A & B & C' & D).
+  f_equal; [apply (IHn t1 A) | apply (IHn t2 B) | apply (IHn t3 C') | apply (IHn t4 D)].
+Qed.
+Lemma permute_dense_id t w : permute_dense t w w = t.
+Proof.
+  unfold permute_dense. assert (E : list_eqb w w = true).
+  { induction w; simpl; auto. rewrite Nat.eqb_refl; auto. }
+  rewrite E. reflexivity.
+Qed.
+Lemma permute_dense_entry t wires wo r c : length r = length wo -> length c = length wo ->
+  list_eqb wires wo = false ->
+  tget (permute_dense t wires wo) r c = tget t (gather wires wo r) (gather wires wo c).
+Proof. intros Hr Hc E. unfold permute_dense. rewrite E. rewrite tget_tbuild; auto. Qed.
+Lemma wf_permute_dense n t wires wo : wf n t -> length wo = n -> wf n (permute_dense t wires wo).
+Proof. intros H L. unfold permute_dense. destruct (list_eqb wires wo); auto. subst n. apply wf_tbuild. Qed.
+
+Lemma tget_tscale k : forall t r c, ceq (tget (tscale k t) r c) (cmul k (tget t r c)).
+Proof.
+  induction t; intros r c; simpl. reflexivity.
+  destruct r as [|br r], c as [|bc c]; try (symmetry; apply cmul_0_r).
+  destruct br, bc; auto.
+Qed.
+Lemma tget_tkron k : forall s t r1 c1 r2 c2, wf k s -> length r1 = k -> length c1 = k ->
+  ceq (tget (tkron s t) (r1 ++ r2) (c1 ++ c2)) (cmul (tget s r1 c1) (tget t r2 c2)).
+Proof.
+  induction k; destruct s; simpl; try tauto; intros t r1 c1 r2 c2 H Hr Hc.
+  - destruct r1, c1; try discriminate. simpl. apply tget_tscale.
+  - destruct r1 as [|br r1], c1 as [|bc c1]; try discriminate. injection Hr as Hr. injection Hc as Hc.
+    destruct H as (A & B & C' & D). destruct br, bc; simpl; apply IHk; auto.
+Qed.
+Lemma tget_tzero n : forall r c, tget (tzero n) r c = c0.
+Proof. induction n; intros r c; simpl. reflexivity. destruct r as [|[] r], c as [|[] c]; auto. Qed.
+Lemma tget_teye n : forall r c, length r = n -> length c = n ->
+  tget (teye n) r c = if bits_eqb r c then c1 else c0.
+Proof.
+  induction n; intros r c Hr Hc.
+  - destruct r, c; try discriminate. reflexivity.
+  - destruct r as [|br r], c as [|bc c]; try discriminate. injection Hr as Hr. injection Hc as Hc.
+    destruct br, bc; simpl; auto using tget_tzero.
+Qed.
+
+(* ================================================================== bridging list facts *)
+Lemma list_eqb_refl w : list_eqb w w = true.
+Proof. induction w; simpl; auto. rewrite Nat.eqb_refl; auto. Qed.
+Lemma isort_strict : forall l, strictb l = true -> isort l = l.
+Proof.
+  induction l as [|x r]; intros H. reflexivity.
+  destruct (strictb_cons _ _ H) as [Hs Hf]. simpl. rewrite (IHr Hs).
+  destruct r as [|y r']. reflexivity. inversion Hf; subst. simpl.
+  destruct (Nat.leb_spec x y); [reflexivity|lia].
+Qed.
+Lemma strictb_intro x : forall r, strictb r = true -> Forall (fun y => x < y) r -> strictb (x :: r) = true.
+Proof.
+  intros r Hs Hf. destruct r as [|y r']. reflexivity. inversion Hf; subst.
+  change (Nat.ltb x y && strictb (y :: r') = true). rewrite Hs.
+  destruct (Nat.ltb_spec x y); [reflexivity|lia].
+Qed.
+Lemma filter_seq_strict f : forall n a, strictb (filter f (seq a n)) = true /\ Forall (fun y => a <= y) (filter f (seq a n)).
+Proof.
+  induction n; intros a; simpl. split; [reflexivity|constructor].
+  destruct (IHn (S a)) as [Hs Hf].
+  assert (Hf' : Forall (fun y => a < y) (filter f (seq (S a) n))).
+  { eapply Forall_impl; [|exact Hf]. simpl; intros; lia. }
+  destruct (f a).
+  - split. apply strictb_intro; auto. constructor. lia. eapply Forall_impl; [|exact Hf']. simpl; intros; lia.
+  - split. exact Hs. eapply Forall_impl; [|exact Hf']. simpl; intros; lia.
+Qed.
+Lemma strictb_seq n a : strictb (seq a n) = true.
+Proof.
+  pose proof (filter_seq_strict (fun _ => true) n a) as [H _].
+  assert (E : forall m b, filter (fun _ : nat => true) (seq b m) = seq b m).
+  { induction m; intros; simpl; auto. rewrite IHm; reflexivity. }
+  rewrite E in H. exact H.
+Qed.
+Lemma mem_In x : forall l, mem x l = true <-> In x l.
+Proof.
+  induction l; simpl. split; [discriminate|tauto].
+  rewrite orb_true_iff, IHl, Nat.eqb_eq. intuition.
+Qed.
+Lemma mem_filter f x : forall l, mem x (filter f l) = f x && mem x l.
+Proof.
+  induction l; simpl. rewrite andb_false_r; reflexivity.
+  destruct (f a) eqn:E; simpl; rewrite IHl.
+  - destruct (Nat.eqb_spec x a); subst; simpl. rewrite E; reflexivity. reflexivity.
+  - destruct (Nat.eqb_spec x a); subst; simpl. rewrite E; reflexivity. reflexivity.
+Qed.
+Lemma mem_seq i a n : a <= i < a + n -> mem i (seq a n) = true.
+Proof. intros H. apply mem_In. apply in_seq. lia. Qed.
+
+Lemma mask_of_traced n ix :
+  mask_of n (filter (fun x => negb (mem x ix)) (seq 0 n)) = traced_mask n ix.
+Proof.
+  unfold mask_of, traced_mask. apply map_ext_in. intros i Hi. apply in_seq in Hi.
+  rewrite mem_filter, mem_seq by lia. apply andb_true_r.
+Qed.
+
+(* reduce_dm with the kept indices given in increasing order is the mask contraction *)
+Lemma reduce_dm_sorted n t ix : wf n t -> strictb ix = true -> length ix <> n ->
+  teq (reduce_dm n t ix) (ptrace_mask (traced_mask n ix) t).
+Proof.
+  intros H Hs Hl. unfold reduce_dm. apply Nat.eqb_neq in Hl. rewrite Hl.
+  rewrite (isort_strict ix Hs), permute_dense_id.
+  set (traced := filter (fun x => negb (mem x ix)) (seq 0 n)).
+  destruct (filter_seq_strict (fun x => negb (mem x ix)) n 0) as [Hst _].
+  rewrite <- mask_of_traced. fold traced. apply partial_trace_mask; auto.
+  - rewrite isort_strict; exact Hst.
+  - unfold traced. apply Forall_forall. intros x Hx. apply filter_In in Hx. destruct Hx as [Hx _].
+    apply in_seq in Hx. lia.
+Qed.
+
+Lemma map_const_false {A} (l : list A) : map (fun _ => false) l = repeat false (length l).
+Proof. induction l; simpl; congruence. Qed.
+Lemma traced_mask_full n : traced_mask n (seq 0 n) = repeat false n.
+Proof.
+  unfold traced_mask. rewrite (map_ext_in _ (fun _ => false)).
+  - rewrite map_const_false, seq_length. reflexivity.
+  - intros i Hi. apply in_seq in Hi. rewrite mem_seq by lia. reflexivity.
+Qed.
+Lemma rsv_all_false n : forall u v, vwf n u -> vwf n v -> rsv (repeat false n) u v = vouter u v.
+Proof.
+  induction n; destruct u, v; simpl; try tauto; intros [U0 U1] [V0 V1].
+  rewrite !IHn; auto.
+Qed.
+Lemma dm_from_state_vector_outer n psi : vwf n psi ->
+  dm_from_state_vector n psi = vouter psi (vconj psi).
+Proof.
+  intros H. unfold dm_from_state_vector, reduce_statevector.
+  rewrite (isort_strict _ (strictb_seq n 0)), permute_dense_id, traced_mask_full.
+  apply rsv_all_false; auto using vwf_vconj.
+Qed.
+
+(* traced_mask for a prefix / suffix of the wires *)
+Lemma mem_seq_false i a n : i < a \/ a + n <= i -> mem i (seq a n) = false.
+Proof.
+  intros H. destruct (mem i (seq a n)) eqn:E; auto. apply mem_In in E. apply in_seq in E. lia.
+Qed.
+Lemma map_const_true {A} (l : list A) : map (fun _ => true) l = repeat true (length l).
+Proof. induction l; simpl; congruence. Qed.
+Lemma traced_mask_prefix k j : traced_mask (k + j) (seq 0 k) = repeat false k ++ repeat true j.
+Proof.
+  unfold traced_mask. rewrite seq_app, map_app. f_equal.
+  - rewrite (map_ext_in _ (fun _ => false)). rewrite map_const_false, seq_length. reflexivity.
+    intros i Hi. apply in_seq in Hi. rewrite mem_seq by lia. reflexivity.
+  - rewrite (map_ext_in _ (fun _ => true)). rewrite map_const_true, seq_length. reflexivity.
+    intros i Hi. apply in_seq in Hi. rewrite mem_seq_false by lia. reflexivity.
+Qed.
+Lemma traced_mask_suffix k j : traced_mask (k + j) (seq k j) = repeat true k ++ repeat false j.
+Proof.
+  unfold traced_mask. rewrite seq_app, map_app. f_equal.
+  - rewrite (map_ext_in _ (fun _ => true)). rewrite map_const_true, seq_length. reflexivity.
+    intros i Hi. apply in_seq in Hi. rewrite mem_seq_false by lia. reflexivity.
+  - rewrite (map_ext_in _ (fun _ => false)). rewrite map_const_false, seq_length. reflexivity.
+    intros i Hi. apply in_seq in Hi. rewrite mem_seq by lia. reflexivity.
+Qed.
+
+Lemma reduce_dm_product_left k j A B : wf k A -> wf j B -> 0 < j ->
+  teq (reduce_dm (k + j) (tkron A B) (seq 0 k)) (tscale (ttrace B) A).
+Proof.
+  intros HA HB Hj.
+  rewrite (reduce_dm_sorted (k + j)); auto using wf_tkron, strictb_seq.
+  - rewrite traced_mask_prefix. apply ptm_kron_keep_left; auto.
+  - rewrite seq_length. lia.
+Qed.
+Lemma reduce_dm_product_right k j A B : wf k A -> wf j B -> 0 < k ->
+  teq (reduce_dm (k + j) (tkron A B) (seq k j)) (tscale (ttrace A) B).
+Proof.
+  intros HA HB Hk.
+  rewrite (reduce_dm_sorted (k + j)); auto using wf_tkron, strictb_seq.
+  - rewrite traced_mask_suffix. apply ptm_kron_keep_right; auto.
+  - rewrite seq_length. lia.
+Qed.
+Lemma reduce_dm_sorted_trace n t ix : wf n t -> strictb ix = true -> length ix <> n ->
+  ceq (ttrace (reduce_dm n t ix)) (ttrace t).
+Proof.
+  intros H Hs Hl. rewrite (reduce_dm_sorted n t ix H Hs Hl).
+  apply (ttrace_ptm _ n); auto. unfold traced_mask. rewrite map_length, seq_length. reflexivity.
+Qed.
+
+(* ================================================================== expand_matrix on a contiguous, ordered block of wires *)
+Lemma expand_matrix_contiguous_le3 : forall p k q t, p <= 3 -> 1 <= k <= 3 -> q <= 3 ->
+  expand_matrix t (seq p k) (Some (seq 0 (p + k + q))) = expand_contiguous_spec p q t.
+Proof.
+  intros p k q t Hp Hk Hq.
+  assert (P : p = 0 \/ p = 1 \/ p = 2 \/ p = 3) by lia.
+  assert (K : k = 1 \/ k = 2 \/ k = 3) by lia.
+  assert (Q' : q = 0 \/ q = 1 \/ q = 2 \/ q = 3) by lia.
+  destruct P as [->|[->|[->| ->]]], K as [->|[->| ->]], Q' as [->|[->|[->| ->]]]; reflexivity.
+Qed.
+
+Lemma expand_contiguous_hom p q n A B : wf n A -> wf n B ->
+  teq (expand_contiguous_spec p q (tmul A B))
+      (tmul (expand_contiguous_spec p q A) (expand_contiguous_spec p q B)).
+Proof.
+  intros HA HB. unfold expand_contiguous_spec.
+  destruct (Nat.ltb 0 p), (Nat.ltb 0 q).
+  - rewrite (kron_eye_r_hom q (p + n)) by (apply wf_tkron; auto using wf_teye).
+    rewrite (kron_eye_l_hom p n A B HA HB). reflexivity.
+  - symmetry. apply (kron_eye_l_hom p n); auto.
+  - symmetry. apply (kron_eye_r_hom q n); auto.
+  - reflexivity.
+Qed.
+Lemma expand_contiguous_unit p q n :
+  teq (expand_contiguous_spec p q (teye n)) (teye (if Nat.ltb 0 q then (if Nat.ltb 0 p then p + n else n) + q else if Nat.ltb 0 p then p + n else n)).
+Proof.
+  unfold expand_contiguous_spec. destruct (Nat.ltb 0 p), (Nat.ltb 0 q).
+  - rewrite (kron_eye_eye p n). apply kron_eye_eye.
+  - apply kron_eye_eye.
+  - apply kron_eye_eye.
+  - reflexivity.
+Qed.
+
+(* ================================================================== reduce_dm for arbitrary index order = explicit contraction *)
+Lemma insert_length x : forall l, length (insert x l) = S (length l).
+Proof. induction l; simpl. reflexivity. destruct (Nat.leb x a); simpl; auto. Qed.
+Lemma isort_length : forall l, length (isort l) = length l.
+Proof. induction l; simpl. reflexivity. rewrite insert_length; auto. Qed.
+Lemma traced_mask_isort n ix : traced_mask n (isort ix) = traced_mask n ix.
+Proof. unfold traced_mask. apply map_ext. intros. rewrite mem_isort. reflexivity. Qed.
+Lemma traced_mask_length n ix : length (traced_mask n ix) = n.
+Proof. unfold traced_mask. rewrite map_length, seq_length. reflexivity. Qed.
+
+Lemma reduce_dm_unsorted n t ix : strictb (isort ix) = true -> length ix <> n ->
+  reduce_dm n t ix = permute_dense (reduce_dm n t (isort ix)) (isort ix) ix.
+Proof.
+  intros Hs Hl. unfold reduce_dm. rewrite isort_length. apply Nat.eqb_neq in Hl. rewrite Hl.
+  rewrite (isort_strict (isort ix) Hs), permute_dense_id.
+  rewrite (filter_ext (fun x => negb (mem x (isort ix))) (fun x => negb (mem x ix))).
+  reflexivity. intros x. rewrite mem_isort. reflexivity.
+Qed.
+Lemma reduce_dm_sorted_contraction n t ix r c : wf n t -> strictb ix = true -> length ix <> n ->
+  length r = count_false (traced_mask n ix) -> length c = count_false (traced_mask n ix) ->
+  ceq (tget (reduce_dm n t ix) r c) (contraction (traced_mask n ix) t r c).
+Proof.
+  intros H Hs Hl Hr Hc. rewrite (tget_proper _ _ r c (reduce_dm_sorted n t ix H Hs Hl)).
+  apply (ptm_contraction _ n); auto using traced_mask_length.
+Qed.
+Lemma gather_length w wo r : length (gather w wo r) = length w.
+Proof. unfold gather. apply map_length. Qed.
+Lemma reduce_dm_unsorted_contraction n t ix r c : wf n t -> strictb (isort ix) = true ->
+  length ix <> n -> list_eqb (isort ix) ix = false ->
+  length ix = count_false (traced_mask n ix) -> length r = length ix -> length c = length ix ->
+  ceq (tget (reduce_dm n t ix) r c)
+      (contraction (traced_mask n ix) t (gather (isort ix) ix r) (gather (isort ix) ix c)).
+Proof.
+  intros H Hs Hl He Hk Hr Hc.
+  rewrite (reduce_dm_unsorted n t ix Hs Hl), (permute_dense_entry _ _ _ r c Hr Hc He).
+  rewrite <- (traced_mask_isort n ix).
+  apply reduce_dm_sorted_contraction; auto.
+  - rewrite isort_length; auto.
+  - rewrite gather_length, isort_length, traced_mask_isort. exact Hk.
+  - rewrite gather_length, isort_length, traced_mask_isort. exact Hk.
+Qed.
+
+Lemma ptm_order_independent n t m1 m2 m1' m2' : wf n t ->
+  length m1 = n -> length m2 = count_false m1 -> length m1' = n -> length m2' = count_false m1' ->
+  mask_merge m1 m2 = mask_merge m1' m2' ->
+  teq (ptrace_mask m2 (ptrace_mask m1 t)) (ptrace_mask m2' (ptrace_mask m1' t)).
+Proof.
+  intros H L1 L2 L1' L2' E.
+  rewrite (ptm_compose m1 n t m2 L1 L2 H), (ptm_compose m1' n t m2' L1' L2' H), E. reflexivity.
+Qed.
+
+Lemma expand_matrix_hom_contiguous_le3 p k q A B : p <= 3 -> 1 <= k <= 3 -> q <= 3 -> wf k A -> wf k B ->
+  teq (expand_matrix (tmul A B) (seq p k) (Some (seq 0 (p + k + q))))
+      (tmul (expand_matrix A (seq p k) (Some (seq 0 (p + k + q))))
+            (expand_matrix B (seq p k) (Some (seq 0 (p + k + q))))).
+Proof.
+  intros Hp Hk Hq HA HB. rewrite !expand_matrix_contiguous_le3 by assumption.
+  apply (expand_contiguous_hom p q k); auto.
+Qed.
+Lemma purity_of_dm_from_state_vector n psi : vwf n psi ->
+  (compute_purity (dm_from_state_vector n psi) == vnorm2 psi * vnorm2 psi)%Q.
+Proof. intros H. rewrite (dm_from_state_vector_outer n psi H). apply (purity_pure n); auto. Qed.
